@@ -602,3 +602,102 @@ def _fast2():
 
 
 REGISTRY['fast'] = _fast2
+
+
+# ---------------------------------------------------------------------------------------------
+# summaries: a pure library function replaced by an uninterpreted function of its arguments (slices by content)
+
+def _arg_key(ex, st, a):
+    if isinstance(a, Slice):
+        cells = ex.slice_cells(st, a)
+        return ('slice',) + tuple(_arg_key(ex, st, c) for c in cells)
+    if isinstance(a, bool) or isinstance(a, int) or isinstance(a, float) or isinstance(a, str):
+        return a
+    if isinstance(a, GSum):
+        return ('g',) + a.key()
+    if isinstance(a, z3.ExprRef):
+        return ('z', a.get_id())
+    if isinstance(a, FReal):
+        return ('r', a.t.get_id())
+    if isinstance(a, FInt):
+        return ('fi', _arg_key(ex, st, a.v))
+    raise Unsupported('summary argument %r' % (a,))
+
+
+def summary(name, nret, kind='float'):
+    def h(ex, fr, st, args, ins):
+        key = (name,) + tuple(_arg_key(ex, st, a) for a in args)
+        tab = ex.__dict__.setdefault('sum_table', {})
+        v = tab.get(key)
+        if v is None:
+            k = len(tab)
+            v = tuple(FReal(z3.Real('sum!%s!%d!%d' % (name.rsplit('.', 1)[-1], k, i))) for i in range(nret))
+            tab[key] = v
+            ex.__dict__.setdefault('sum_keep', []).append(args)
+        ex.log.append((st.pc, name, key[1:]))
+        return v[0] if nret == 1 else v
+    return h
+
+
+@stubset('lib_summaries')
+def _libsum():
+    from intr import RP
+    d = {}
+    two = ['MonoBitFrequencyTestBytes', 'MonoBitFrequencyTest', 'FrequencyWithinBlockProto', 'PokerTestBytes', 'PokerProto',
+           'RunsTest', 'RunsDistributionTest', 'LongestRunOfOnesInABlockProto', 'BinaryDerivativeProto', 'AutocorrelationProto',
+           'MatrixRankProto', 'CumulativeTest', 'ApproximateEntropyProto', 'LinearComplexityProto', 'MaurerUniversalTest',
+           'DiscreteFourierTransformTest']
+    for n in two:
+        d[RP + '.' + n] = summary(RP + '.' + n, 2)
+    d[RP + '.OverlappingTemplateMatchingProto'] = summary(RP + '.OverlappingTemplateMatchingProto', 4)
+    return d
+
+
+def _runner_summary(name):
+    def h(ex, fr, st, args, ins):
+        key = (name, _arg_key(ex, st, args[0]))
+        tab = ex.__dict__.setdefault('runner_table', {})
+        v = tab.get(key)
+        if v is None:
+            k = len(tab)
+            short = name.rsplit('.', 1)[-1]
+            val = [short, FReal(z3.Real('run!%s!%d!P' % (short, k))), FReal(z3.Real('run!%s!%d!Q' % (short, k))),
+                   FReal(z3.Real('run!%s!%d!P2' % (short, k))), FReal(z3.Real('run!%s!%d!Q2' % (short, k))), z3.Bool('run!%s!%d!Pass' % (short, k))]
+            oid = ex.new_obj(st, val)
+            ex.alloc_epoch[oid] = ex.nobj
+            v = Ptr(oid, ())
+            tab[key] = v
+        ex.log.append((st.pc, name, key[1]))
+        return v
+    return h
+
+
+RUNNERS = ['MonoBitFrequency', 'FrequencyWithinBlock', 'Poker', 'OverlappingTemplateMatching', 'Runs', 'RunsDistribution',
+           'LongestRunOfOnesInABlock', 'BinaryDerivative', 'Autocorrelation', 'MatrixRank', 'Cumulative', 'ApproximateEntropy',
+           'LinearComplexity', 'MaurerUniversal', 'DiscreteFourierTransform']
+
+
+@stubset('runner_summaries')
+def _runsum():
+    from intr import RP
+    return {RP + '.' + n: _runner_summary(RP + '.' + n) for n in RUNNERS}
+
+
+def tmpfile(ex, fr, st, args, ins):
+    ex.tmpfile_data = args[0]
+    return 'verif-tmp-file'
+
+
+def readfile(ex, fr, st, args, ins):
+    d = getattr(ex, 'tmpfile_data', None)
+    if d is None or args[0] != 'verif-tmp-file':
+        raise Unsupported('ioutil.ReadFile of %r' % (args[0],))
+    cells = list(ex.slice_cells(st, d))
+    oid = ex.new_obj(st, cells)
+    ex.alloc_epoch[oid] = ex.nobj
+    return (Slice(oid, (), 0, len(cells), len(cells)), None)
+
+
+@stubset('files')
+def _files():
+    return {'#vTempFile': tmpfile, 'io/ioutil.ReadFile': readfile, 'os.ReadFile': readfile}
